@@ -44,14 +44,17 @@ GroupVal(bits, from, k) == IF k = 0 THEN 0 ELSE GroupVal(bits, from, k - 1) * 2 
 Groups(bits, k) == [g \in 1..(Len(bits) \div k) |-> GroupVal(bits, (g - 1) * k + 1, k)]
 B32Char(v) == IF v < 10 THEN 48 + v ELSE 55 + v            \* 0-9 A-V
 B64Char(v) == IF v < 26 THEN 65 + v ELSE IF v < 52 THEN 71 + v ELSE IF v < 62 THEN v - 4 ELSE IF v = 62 THEN 45 ELSE 95   \* A-Z a-z 0-9 - _
-IdString(n) == LET g == Groups(Pad(BitsOf(BytesOf(n)), 5), 5) IN [i \in DOMAIN g |-> B32Char(g[i])]
+IdStringB(bs) == LET g == Groups(Pad(BitsOf(bs), 5), 5) IN [i \in DOMAIN g |-> B32Char(g[i])]
+IdString(n) == IdStringB(BytesOf(n))
 \* base64url with '=' padding to a multiple of four characters; '=' is not unreserved and is percent-encoded in the id64 value
-Id64Raw(n) == LET g == Groups(Pad(BitsOf(BytesOf(n)), 6), 6)  chars == [i \in DOMAIN g |-> B64Char(g[i])] IN
-              chars \o [i \in 1..((4 - (Len(chars) % 4)) % 4) |-> 61]
+Id64RawB(bs) == LET g == Groups(Pad(BitsOf(bs), 6), 6)  chars == [i \in DOMAIN g |-> B64Char(g[i])] IN
+                chars \o [i \in 1..((4 - (Len(chars) % 4)) % 4) |-> 61]
+Id64Raw(n) == Id64RawB(BytesOf(n))
 RECURSIVE EncodeNonUnreserved(_)
 EncodeNonUnreserved(s) == IF s = <<>> THEN <<>> ELSE
                           (IF Unreserved(Head(s)) THEN <<Head(s)>> ELSE PercentEncoded(Head(s))) \o EncodeNonUnreserved(Tail(s))
 Id64String(n) == EncodeNonUnreserved(Id64Raw(n))
+Id64StringB(bs) == EncodeNonUnreserved(Id64RawB(bs))
 \* d1..d4: the k-th character of the id string counted from its end, '_' when there is none
 IdDigit(idv, k) == IF Len(idv) >= k THEN idv[Len(idv) - k + 1] ELSE 95
 
@@ -88,6 +91,10 @@ Run(st, t, idv, id64v) == IF t = <<>> THEN st ELSE Run(Step(st, Head(t), idv, id
 \* the expansion of template t (a sequence of bytes) for numeric id n: an error, or the output bytes
 Expand(t, n) == LET st == Run(Start, t, IdString(n), Id64String(n)) IN
                 IF st.err \/ st.mode # "lit" THEN [ok |-> FALSE, out |-> <<>>] ELSE [ok |-> TRUE, out |-> st.out]
+
+\* ... for a string id (its bytes as they are: no leading zero is dropped)
+ExpandB(t, bs) == LET st == Run(Start, t, IdStringB(bs), Id64StringB(bs)) IN
+                  IF st.err \/ st.mode # "lit" THEN [ok |-> FALSE, out |-> <<>>] ELSE [ok |-> TRUE, out |-> st.out]
 
 \* ---- statements TLC checks on the families ----------------------------------------------------
 \* the output is a URI: unreserved / reserved characters and well-formed percent triplets only
